@@ -108,13 +108,20 @@ def _alarm(signum, frame):
 
 
 def with_timeout(seconds, fn, *args, **kw):
+    """watchdog in CPU time of this process (ITIMER_PROF), so that a loaded machine cannot turn a slow but
+    terminating computation into a 'does not terminate' verdict; a generous wall-clock backstop (20 x) catches
+    blocking (non CPU-bound) hangs"""
     old = signal.signal(signal.SIGALRM, _alarm)
-    signal.setitimer(signal.ITIMER_REAL, seconds)
+    oldp = signal.signal(signal.SIGPROF, _alarm)
+    signal.setitimer(signal.ITIMER_PROF, seconds, 0.5)   # re-fires: an exception raised inside a weakref/GC callback is swallowed
+    signal.setitimer(signal.ITIMER_REAL, 20 * seconds, 0.5)
     try:
         return fn(*args, **kw)
     finally:
+        signal.setitimer(signal.ITIMER_PROF, 0)
         signal.setitimer(signal.ITIMER_REAL, 0)
         signal.signal(signal.SIGALRM, old)
+        signal.signal(signal.SIGPROF, oldp)
 
 
 def _worker(payload):
